@@ -112,6 +112,9 @@ func TestVerifC12_csidh(t *testing.T) {
 		}}, all)
 	f.CheckPred(r, bf.Pred{Name: "isZero", Do: func(x bf.Elem) bool { return x.(*fp).isZero() }, Ref: bf.RefIsZero}, all)
 	f.CheckPred(r, bf.Pred{Name: "isLess(p)", Do: func(x bf.Elem) bool { return isLess(x.(*fp), &p) }, Ref: func(x, p *big.Int) bool { return x.Cmp(p) < 0 }}, all)
+	f.CheckBitFlips(r, bf.BitFlip{Coords: 1, Bits: 512, P: P, Limit: P, IsZero: func(x bf.Elem) bool { return x.(*fp).isZero() },
+		IsEqual: func(x, y bf.Elem) bool { return x.(*fp).equal(y.(*fp)) }}, []bf.Operand{{V: new(big.Int), Name: "0"}, {V: big.NewInt(1), Name: "1"}, {V: new(big.Int).Sub(P, big.NewInt(1)), Name: "p-1"}, {V: bf.Pseudo("csidh-pred", 0, P), Name: "pseudo0"}, {V: bf.Pseudo("csidh-pred", 1, P), Name: "pseudo1"}})
+	r.RequireCounter("csidh.fp.predicates.one-bit-neighbours", 4*510)
 	r.RequireCounter("csidh.fp.isZero.true", 1)
 
 	// integer helpers on every 512-bit string (also >= p): mul512, isLess, equal, cswap512
